@@ -48,6 +48,7 @@ static inline uint64_t spec_unpack_at(const uint8_t *buf, unsigned i, unsigned w
 /* ghost state referred to by contracts/delta*.ovl (verification side only) */
 size_t cqv_k;          /* arbitrary index: stands for "every k" */
 int64_t cqv_dummy;     /* valid assigns target when an output array is absent */
+int cqv_dec_fail;      /* ghost: set when the header parser or a value step of a one-shot decode failed */
 uint8_t cqv_w[4];      /* flush_block: widths chosen for the 4 mini-blocks */
 int64_t cqv_min;       /* flush_block: min delta written */
 size_t cqv_needed;     /* flush_block: the encoder's packed_bytes_needed */
